@@ -247,7 +247,7 @@ func Build(c *Corpus, dir string) (*Built, error) {
 		if err != nil {
 			return nil, fmt.Errorf("repo %s: %w", r.Name, err)
 		}
-		mem = append(mem, &MemFile{Data: data, Nm: fmt.Sprintf("%s_v16.00000.zoekt", sanitize(r.Name))})
+		mem = append(mem, &MemFile{Data: data, Nm: fmt.Sprintf("%s_%d_v16.00000.zoekt", sanitize(r.Name), r.ID)})
 	}
 	if c.Compound && len(mem) > 0 {
 		if dir == "" {
